@@ -18,10 +18,11 @@ for d in sorted(os.listdir(root)):
         if m and m.group(1) not in props: props.append(m.group(1))
     if meta['property'] not in props: props.append(meta['property'])
     t0 = time.time()
-    p = subprocess.run(['/verif/tools/seedtest.sh', os.path.join(root, d, 'patch.diff'), 'quick'] + props, capture_output=True, text=True)
+    p = subprocess.run(['/verif/tools/seedtest.sh', os.path.join(root, d, 'patch.diff'), 'quick'] + props, capture_output=True)
+    p_stdout = p.stdout.decode('utf-8', errors='replace')
     rows = {}
     cur = None
-    for line in p.stdout.splitlines():
+    for line in p_stdout.splitlines():
         m = re.match(r'== (C\d\d) exit=(\d+)', line)
         if m: cur = m.group(1); rows[cur] = {'exit': int(m.group(2)), 'signatures': []}; continue
         m = re.match(r'violation signature (\S+) \((\d+) cases\)', line)
@@ -29,7 +30,7 @@ for d in sorted(os.listdir(root)):
     caught = [k for k, v in rows.items() if v['exit'] == 1]
     res[d] = {'property': meta['property'], 'checks': rows, 'caught_by': caught, 'own_check_catches': meta['property'] in caught, 'seconds': round(time.time() - t0)}
     print(d, 'caught by', caught, 'own' if meta['property'] in caught else 'NOT-OWN', flush=True)
-    if 'not clean' in p.stdout or 'does not apply' in p.stdout: print('  PROBLEM:', p.stdout[:300], flush=True)
+    if 'not clean' in p_stdout or 'does not apply' in p_stdout: print('  PROBLEM:', p_stdout[:300], flush=True)
     json.dump(res, open(out_path, 'w'), indent=1)
 # leave the binaries of the unchanged tree behind
 subprocess.run(['/verif/check', 'C09', '--tier', 'quick'], capture_output=True)
